@@ -163,6 +163,8 @@ PVerbs == {Prog(rs, <<v>>) : rs \in NStreams, v \in
                     \cup {GrepV(RX(c, re, <<>>), x) : x \in BOOLEAN}
                     \cup {SubV(vn, f, RX("lit", re, <<>>), t) : vn \in {"sub", "gsub", "ssub"}, f \in {<< <<"a">>, <<"b">> >>, << <<"A", "b">>, <<"B">>, <<"e2", "a">>, <<"2">> >>},
                                                                 t \in {<<"us">>, <<"e2", "e2">>}}
+                    \cup {SubVR(vn, RX("lit", fr, <<>>), RX("lit", re, <<>>), <<"us">>) : vn \in {"sub", "gsub"}, fr \in {pB, R1(<<Bol, Dot, Eol>>)}}
+                    \cup {SubVA(vn, RX("lit", re, <<>>), <<"1">>) : vn \in {"sub", "gsub", "ssub"}}
                     : re \in VerbRes, c \in VerbSrc}}
 
 Programs == [twice |-> PTwice, chain |-> PChain, caps |-> PCaps, field |-> PField, verbs |-> PVerbs]
